@@ -266,3 +266,21 @@ _reg(
     "Exploration over hash seeds {0,1,2,3,random} x history shapes; holds for the requests and histories exercised.",
     max_workers=4,
 )
+
+_reg(
+    "C19",
+    "exploration",
+    "cases = (a) every MonkeyPatchSpec of every leaf plugin and every function-plugin patch: original and substitute are obtained exactly as "
+    "apply_patches does (make_value(getattr(target, attr))); from inspect.signature(original) a base form and one-step variations are generated "
+    "(each optional parameter by keyword / positionally, each required parameter by keyword) and the SUBSTITUTE IS REALLY CALLED with sentinel "
+    "arguments whose every use raises a private BaseException: reaching the body proves the form bound, a binding-family TypeError raised at "
+    "the call boundary proves it did not; reported only differentially (base binds, base + one parameter does not); (b) 100 one-call programs "
+    "exercising a parameter with a non-default value (jnp / jax.nn / lax / nnx / linen): eager JAX first, then to_onnx + ORT vs JAX - outcome "
+    "must be agreement or an explicit rejection, never a binding TypeError and never a silently different result. evaluations = call forms "
+    "executed + one-call programs; non-trivial = a form accepted by the original's signature that was executed, or a one-call program judged; "
+    "distinct = (substitute, form) / program.",
+    (900, 700, 900, 700),
+    "call-boundary monitor: every installed substitute is called in every call form its original's signature admits (sentinel arguments); single-call exports with non-default values vs eager JAX",
+    "DESIGN.md 3/C19",
+    "Exploration over all binding specs of the working tree x call forms derived from the installed library's signatures.",
+)
